@@ -3,21 +3,21 @@
 Decided statically:
  * API-COMPAT: every pandas/numpy call in Log.py exists with those keywords in the installed library, including the
    DataFrame method chain of the old-format timing block.
- * LINE-ACCOUNT: the line counter counts non-blank lines only (blank-skip precedes the increment; the increment is
-   unconditional at the end of the loop body), header = start-trigger index + 1, footer = end-trigger index - 1,
-   truncated final block closed at the last line, nrows = footer - header, every table read skips blank lines and
-   starts from a rewound stream.
- * TRIGGERS: both memory banners, the loop-time trailer, banner slice lengths, the month table.
- * APPEND: append=False clears all three fields; performance rows are attached after the existing simulations.
- * FLATTEN: first / last / all merge rules on Step.
-Declined: that parsed values equal printed values (pandas' tokenizer).
+ * READ / APPEND / TRIGGERS: Log.read interpreted on synthesised logs given as token lines (both memory banners, blank lines
+   anywhere, timing breakdowns, a final block cut short, no banner, two banners) with a file model that has a read position
+   and a read_csv model that counts non-blank lines as pandas does: one record per run in order, printed column names and
+   rows, rewinds, timing tables, version/date for all twelve months, append / overwrite sequences.
+ * FLATTEN: Log.flatten interpreted on model tables with exact Step values and tagged data (first / last / all, index
+   ranges, default, refusals).
+ * RESTART: lammps.run on a model file system.
+Declined: that parsed values equal printed values (pandas' tokenizer and number parsing).
 """
 import ast
 
 import sympy as sp
 
 from ..core import norm, calls_in, kwarg, cmp_canon, string_dispatch, assigns_to, precedes, walk_no_nested
-from ..symx import SymEval, Path
+from ..symx import SymEval, Path, PyStub
 from .. import apicompat
 
 LOG = 'atomman/lammps/Log.py'
@@ -37,238 +37,344 @@ def api(ctx):
         ctx.ob('API-COMPAT', loc, i.what, False, norm(i.node)[:200], node=i.node, key=i.kind + ':' + i.what)
 
 
-def _int_offset(expr, var='i'):
-    """value of `expr - var` if expr is an integer-affine expression of var, else None"""
-    ev = SymEval()
-    i = sp.Symbol(var, integer=True)
-    try:
-        v = ev.ev(expr, Path({var: i}))
-        d = sp.simplify(v - i)
-        return int(d) if d.is_Integer else None
-    except Exception:
-        return None
+# ------------------------------------------------------------------ model evaluation of the reader
+
+class _Bytes(PyStub):
+    def __init__(self, t):
+        self.t = t
+
+    def decode(self, enc='utf-8'):
+        return self.t
 
 
-def line_account(ctx):
+class _LogFile(PyStub):
+    """binary file model: a list of text lines, a read position, iteration from the position, seek(0)"""
+    def __init__(self, lines):
+        self.lines = lines
+        self.pos = 0
+        self.seeks = 0
+
+    def __enter__(self):
+        return self
+
+    def __iter__(self):
+        rest = self.lines[self.pos:]
+        self.pos = len(self.lines)
+        return iter([_Bytes(x) for x in rest])
+
+    def seek(self, k):
+        if k != 0:
+            raise RuntimeError('seek(%r) is outside the model' % (k,))
+        self.pos = 0
+        self.seeks += 1
+
+
+class _Table(PyStub):
+    """what pandas.read_csv(sep=whitespace) yields: column names and rows of printed tokens"""
+    _isa = ('DataFrame',)
+
+    def __init__(self, columns, rows):
+        self.columns, self.rows = list(columns), [list(r) for r in rows]
+
+    def __len__(self):
+        return len(self.rows)
+
+    def __contains__(self, k):
+        return k in self.columns
+
+    def keys(self):
+        return list(self.columns)
+
+
+def _mk_read_csv(calls):
+    def read_csv(f, header='infer', nrows=None, sep=',', skip_blank_lines=True, delim_whitespace=False, **kw):
+        from ..symx import ModelError
+        calls.append(dict(header=header, nrows=nrows, sep=sep, skip_blank_lines=skip_blank_lines, pos=f.pos, extra=sorted(kw)))
+        lines = [x for x in f.lines[f.pos:]]
+        f.pos = len(f.lines)
+        if skip_blank_lines:
+            lines = [x for x in lines if x.strip()]       # pandas: header / nrows count the non-blank lines only
+        h = int(header)
+        if h >= len(lines):
+            raise ModelError('EmptyDataError', 'No columns to parse from file')
+        split = (lambda x: x.split()) if sep in (r'\s+', ' ', None) else (lambda x: [t for t in x.rstrip('\n').split(sep)])
+        cols = split(lines[h])
+        body = lines[h + 1:] if nrows is None else lines[h + 1:h + 1 + int(nrows)]
+        return _Table(cols, [split(x) for x in body])
+    return read_csv
+
+
+def _synth(blocks, banner='LAMMPS (29 Oct 2020 - Update 2)', cut_last=None, extra_banner=False):
+    """a well-formed log from the documented layout; returns (lines, expected [(columns, rows)], expected performance line ranges)"""
+    lines, want, perf = [], [], []
+    if banner:
+        lines += [banner + '\n', 'OMP_NUM_THREADS environment is not set.\n', '\n', 'units metal\n', '   \n']
+    for k, (mem, cols, rows, timing) in enumerate(blocks):
+        lines += ['run 100\n', mem + ' 3.2 | 3.3 | 3.4 Mbytes\n']
+        if k == 1:
+            lines += ['\n']
+        lines += ['   ' + '   '.join(cols) + ' \n']
+        last = (k == len(blocks) - 1)
+        use = rows if not (last and cut_last is not None) else rows[:cut_last]
+        for r in use:
+            lines += ['  ' + '  '.join(r) + '\n']
+            if k == 0 and r is rows[0]:
+                lines += ['\n']           # blank line inside a table: not counted, not read
+        want.append((list(cols), [list(r) for r in use]))
+        if last and cut_last is not None:
+            break
+        lines += ['Loop time of 0.01 on 1 procs for 100 steps with 4 atoms\n', '\n']
+        if extra_banner and k == 0:
+            lines += ['LAMMPS (1 Jan 1999)\n']
+        if timing:
+            nb = len([x for x in lines if x.strip()])
+            lines += ['MPI task timing breakdown:\n', 'Section |  min time  |  avg time  |  max time  |%varavg| %total\n', '---------------------------------------------------------------\n',
+                      'Pair    | 0.001 | 0.001 | 0.001 |   0.0 | 50.00\n', 'Neigh   | 0 | 0 | 0 |   0.0 |  0.00\n', '\n', 'Nlocal:    4.00000 ave 4 max 4 min\n']
+            perf.append((k, nb + 1, nb + 4))
+        lines += ['Total wall time: 0:00:00\n' if last else 'reset_timestep 0\n']
+    return lines, want, perf
+
+
+def read_model(ctx):
+    """Log.read interpreted on synthesised logs (token lines, a file position, pandas' header/nrows semantics over non-blank lines)"""
+    from ..symx import SymObj, PyStub, Opaque, WouldRaise, module_aliases
+    from ..core import AnalysisError
+    cls = ctx.fn(LOG, 'Log')
     read = ctx.fn(LOG, 'Log.read')
     loc = LOG + '::Log.read'
-    loops = [n for n in ast.walk(read) if isinstance(n, ast.For) and norm(n.iter) == 'log_info']
-    ctx.need(len(loops) == 1, 'Log.read: the single pass `for line in log_info` was not found')
-    loop = loops[0]
-    # counter variable = the name incremented in the loop body at top level
-    incs = [s for s in loop.body if isinstance(s, ast.AugAssign) and isinstance(s.op, ast.Add) and isinstance(s.value, ast.Constant) and s.value.value == 1]
-    ctx.need(len(incs) == 1, 'Log.read: the line counter increment is no longer a single unconditional top-level statement of the loop')
-    inc = incs[0]
-    cnt = norm(inc.target)
-    all_incs = [s for s in ast.walk(loop) if isinstance(s, (ast.AugAssign, ast.Assign)) and cnt in [norm(t) for t in (getattr(s, 'targets', None) or [s.target])]]
-    ctx.ob('LINE-ACCOUNT', loc, 'the counter advances exactly once per iteration (single unconditional increment, last statement of the loop)',
-           len(all_incs) == 1 and loop.body[-1] is inc, '%d stores to %s' % (len(all_incs), cnt), node=inc)
-    conts = [s for s in ast.walk(loop) if isinstance(s, ast.Continue)]
-    ok = len(conts) == 1
-    blank_ok = False
-    if ok:
-        par = conts[0]._parent
-        ok = isinstance(par, ast.If) and par in loop.body and precedes(par, inc)
-        t = norm(par.test).replace(' ', '')
-        blank_ok = t in ('len(line.split())==0', 'notline.split()', 'notline.strip()', "line.strip()==''", 'len(line.strip())==0')
-    ctx.ob('LINE-ACCOUNT', loc, 'only blank lines skip the increment (one `continue`, guarded by the blank-line test, before the increment)',
-           ok and blank_ok, norm(conts[0]._parent.test) if conts else 'no continue', node=conts[0] if conts else loop)
-    # appends
-    want = {'thermo_headers': +1, 'thermo_footers': -1, 'performance_footers': -1}
-    found = {}
-    for c in calls_in(loop):
-        f = norm(c.func)
-        if f.endswith('.append') and f[:-7] in want and c.args:
-            found.setdefault(f[:-7], []).append(c)
-    for lst, off in want.items():
-        cs = found.get(lst, [])
-        ctx.need(cs, 'Log.read: no %s.append(...) inside the loop' % lst)
-        for c in cs:
-            d = _int_offset(c.args[0], cnt)
-            ctx.ob('LINE-ACCOUNT', loc, '%s records trigger line %+d' % (lst, off), d == off, 'records %s (offset %s)' % (norm(c.args[0]), d), node=c,
-                   key='%s offset' % lst)
-    # which trigger list guards which append
-    def guard_of(c):
-        n = c
-        while n is not loop:
-            n = n._parent
-            if isinstance(n, ast.If) and any(c is x for x in ast.walk(ast.Module(n.body, []))):
-                return norm(n.test)
-        return ''
-    ctx.ob('LINE-ACCOUNT', loc, 'header recorded under the start trigger, footer under the end trigger',
-           'thermo_start_trigger' in guard_of(found['thermo_headers'][0]) and 'thermo_end_trigger' in guard_of(found['thermo_footers'][0]),
-           node=found['thermo_headers'][0])
-    # final footer for truncated logs: after the loop, offset 0
-    after = [c for c in calls_in(read) if norm(c.func) == 'thermo_footers.append' and not any(c is x for x in ast.walk(loop))]
-    ok = len(after) == 1 and _int_offset(after[0].args[0], cnt) == 0 and after[0].lineno > loop.end_lineno if hasattr(loop, 'end_lineno') else False
-    ctx.ob('LINE-ACCOUNT', loc, 'a final footer at the last line closes a block cut short by a crash', bool(ok), node=after[0] if after else read)
-    # zip(headers, footers) -> __read_thermo(log_info, header, footer)
-    rt = [c for c in calls_in(read) if norm(c.func).endswith('__read_thermo')]
-    ctx.need(len(rt) == 1, 'Log.read: call of __read_thermo not found')
-    par = rt[0]
-    while not isinstance(par, ast.For):
-        par = par._parent
-    ok = norm(par.iter).replace(' ', '') == 'zip(thermo_headers,thermo_footers)' and [norm(a) for a in rt[0].args] == ['log_info'] + [norm(e) for e in par.target.elts]
-    ctx.ob('LINE-ACCOUNT', loc, 'blocks are read pairwise in order of appearance (zip(headers, footers))', ok, norm(par.iter), node=par)
-    seeks = [c for c in calls_in(read) if norm(c.func) == 'log_info.seek']
-    ctx.ob('LINE-ACCOUNT', loc, 'stream rewound after the scan and before the table reads',
-           any(loop.lineno < s.lineno < par.lineno and norm(s.args[0]) == '0' for s in seeks), node=seeks[0] if seeks else read)
-    # table reads
+    MEM1, MEM2 = 'Per MPI rank memory allocation (min/avg/max) =', 'Memory usage per processor ='
+    A = (MEM1, ['Step', 'Temp', 'PotEng'], [['0', '300', '-13.44'], ['50', '310.5', '-13.40'], ['100', '1e+02', '-13.39']], True)
+    B = (MEM2, ['Step', 'Press'], [['100', '0.5'], ['200', '-1.25e-3']], False)
+    C = (MEM1, ['Step', 'KinEng', 'Temp', 'Volume'], [['0', '0', '0', '64'], ['10', '1', '2', '64'], ['20', '3', '4', '65'], ['30', '5', '6', '66']], True)
+
+    def new_log():
+        return SymObj(cls, {'_Log__simulations': [], '_Log__lammps_version': None, '_Log__lammps_date': None}, 'self')
+
+    def do_read(obj, lines, append=None):
+        calls, perfcalls, files = [], [], []
+
+        class Sim(PyStub):
+            def __init__(self, thermo=None, performance=None):
+                self.thermo, self.performance = thermo, performance
+
+        class PD(PyStub):
+            DataFrame = 'DataFrame'
+        pd_ = PD()
+        pd_.read_csv = _mk_read_csv(calls)
+
+        def opener(x):
+            f = _LogFile(x)
+            files.append(f)
+            return f
+
+        class DT(PyStub):
+            def date(self, year, month, day):
+                return ('DATE', int(year), int(month), int(day))
+        obj.attrs['_Log__read_performance'] = lambda f, h, ft, old: (perfcalls.append((int(h), int(ft), bool(old), f.pos)), ('PERF', int(h), int(ft)))[1]
+        ev = SymEval(module_aliases(ctx.mod(LOG)))
+        ev.globals = {'uber_open_rmode': opener, 'pd': pd_, 'Simulation': Sim, 'datetime': DT()}
+        kw = {} if append is None else {'append': append}
+        try:
+            paths = ev.run_fn(read, [obj, lines], kw)
+        except WouldRaise as e:
+            return 'raise: %s' % e, calls, perfcalls, files
+        except Opaque as e:
+            raise AnalysisError('Log.read on a synthesised log: %s' % e)
+        return ('ok' if len([q for q in paths if q.done == 'return']) == 1 else 'raise'), calls, perfcalls, files
+
+    def tables(obj):
+        return [(s_.thermo.columns, s_.thermo.rows) if isinstance(getattr(s_, 'thermo', None), _Table) else None for s_ in obj.attrs['_Log__simulations']]
     n = 0
-    for q in ('Log.__read_thermo', 'Log.__read_performance'):
-        fn = ctx.fn(LOG, q)
-        rc = [c for c in calls_in(fn) if norm(c.func) == 'pd.read_csv']
-        ctx.need(rc, '%s: pd.read_csv not found' % q)
-        for c in rc:
-            n += 1
-            hdr, nrows, sbl = kwarg(c, 'header'), kwarg(c, 'nrows'), kwarg(c, 'skip_blank_lines')
-            ev = SymEval()
-            h, f = sp.symbols('header footer', integer=True)
-            try:
-                okn = sp.simplify(ev.ev(nrows, Path({'header': h, 'footer': f})) - (f - h)) == 0 and sp.simplify(ev.ev(hdr, Path({'header': h, 'footer': f})) - h) == 0
-            except Exception:
-                okn = False
-            # pandas' default for skip_blank_lines is True; an explicit False would re-count blank lines
-            oks = sbl is None or (isinstance(sbl, ast.Constant) and sbl.value is True)
-            ctx.ob('LINE-ACCOUNT', LOG + '::' + q, 'table read uses header=header, nrows=footer-header and skips blank lines (the counter ignores them)',
-                   okn and oks, norm(c)[:200], node=c, key='read_csv#%d' % n)
-        sk = [c for c in calls_in(fn) if norm(c.func) == 'log_info.seek' and norm(c.args[0]) == '0']
-        ctx.ob('LINE-ACCOUNT', LOG + '::' + q, 'stream rewound after the table read', len(sk) >= 1 and all(s.lineno > c.lineno for s in sk[-1:] for c in rc), node=fn)
-    ctx.floor('LINE-ACCOUNT/read_csv', n, 3)
-    # thermo read is whitespace separated
-    fn = ctx.fn(LOG, 'Log.__read_thermo')
-    c = [c for c in calls_in(fn) if norm(c.func) == 'pd.read_csv'][0]
-    sep = kwarg(c, 'sep') or kwarg(c, 'delimiter')
-    ctx.ob('LINE-ACCOUNT', LOG + '::Log.__read_thermo', 'thermo table is split on runs of whitespace',
-           isinstance(sep, ast.Constant) and sep.value in (r'\s+', r'\s*', r'[ \t]+', r'\s{1,}') or (kwarg(c, 'delim_whitespace') is not None), norm(sep), node=c)
-    ctx.ob('LINE-ACCOUNT', LOG + '::Log.__read_thermo', 'each thermo block becomes one Simulation appended in order',
-           any(norm(x.func).endswith('__simulations.append') and 'Simulation(thermo=thermo)' in norm(x) for x in calls_in(fn)), node=fn)
-
-
-def triggers(ctx):
-    read = ctx.fn(LOG, 'Log.read')
-    loc = LOG + '::Log.read'
-    vals = {}
-    for s in ast.walk(read):
-        if isinstance(s, ast.Assign) and isinstance(s.targets[0], ast.Name) and isinstance(s.value, ast.List) and all(isinstance(e, ast.Constant) for e in s.value.elts):
-            vals[s.targets[0].id] = [e.value for e in s.value.elts]
-    st = vals.get('thermo_start_trigger', [])
-    ctx.ob('TRIGGERS', loc, 'both documented memory banners start a thermo block',
-           any('Memory usage per processor' in x for x in st) and any('Per MPI rank memory allocation' in x for x in st), str(st), node=read)
-    for x in st:
-        ctx.ob('TRIGGERS', loc, 'start trigger is a prefix of a documented banner', 'Memory usage per processor ='.startswith(x) or 'Per MPI rank memory allocation (min/avg/max) ='.startswith(x),
-               repr(x), node=read, key='start trigger %r' % x)
-    ctx.ob('TRIGGERS', loc, 'the loop-time trailer ends a thermo block', vals.get('thermo_end_trigger') == ['Loop time of'] or
-           (vals.get('thermo_end_trigger') and all('Loop time of'.startswith(x) and len(x) >= 9 for x in vals['thermo_end_trigger'])), str(vals.get('thermo_end_trigger')), node=read)
-    # banner test: line[:N] == 'LAMMPS (' with N == len
-    ok = False
-    once = False
-    for c in ast.walk(read):
-        if isinstance(c, ast.Compare) and isinstance(c.left, ast.Subscript) and norm(c.left.value) == 'line' and isinstance(c.left.slice, ast.Slice) \
-                and isinstance(c.comparators[0], ast.Constant) and isinstance(c.comparators[0].value, str) and c.comparators[0].value.startswith('LAMMPS'):
-            up = c.left.slice.upper
-            ok = c.left.slice.lower is None and isinstance(up, ast.Constant) and up.value == len(c.comparators[0].value) and c.comparators[0].value == 'LAMMPS ('
-            par = c._parent
-            once = isinstance(par, ast.BoolOp) and isinstance(par.op, ast.And) and any(norm(v) == 'self.lammps_version is None' for v in par.values)
-        if isinstance(c, ast.Call) and norm(c.func) == 'line.startswith' and c.args and isinstance(c.args[0], ast.Constant) and c.args[0].value == 'LAMMPS (':
-            ok = True
-            par = c._parent
-            once = isinstance(par, ast.BoolOp) and isinstance(par.op, ast.And) and any(norm(v) == 'self.lammps_version is None' for v in par.values)
-    ctx.ob('TRIGGERS', loc, 'the version banner test compares exactly the length of "LAMMPS ("', ok, node=read)
-    ctx.ob('TRIGGERS', loc, 'the version is read once (first banner wins)', once, node=read)
+    for tag, blocks, kw in (('two runs, both memory banners, blank lines before, between and inside the tables, timing breakdown after the first', [A, B], {}),
+                            ('three runs, the last one cut short by a crash after two rows', [A, B, C], {'cut_last': 2}),
+                            ('one run cut short right after its header line', [C], {'cut_last': 0}),
+                            ('no version banner', [B, A], {'banner': None})):
+        n += 1
+        lines, want, perf = _synth(blocks, **kw)
+        obj = new_log()
+        st, calls, perfcalls, files = do_read(obj, lines)
+        got = tables(obj) if st == 'ok' else None
+        ctx.ob('READ', loc, '%s: one record per run in order of appearance, each thermo table with the printed column names and the printed rows, row for row' % tag, st == 'ok' and got == [(c, r) for c, r in want],
+               st if st != 'ok' else 'tables %s' % str(got)[:260], node=read, key='tables ' + tag)
+        ctx.ob('READ', loc, '%s: every table read starts from the beginning of the stream (rewound after the scan and after each read) and counts non-blank lines as the scan did' % tag,
+               st == 'ok' and all(c['pos'] == 0 and c['skip_blank_lines'] is True for c in calls) and len(calls) == len(want), str(calls)[:200], node=read, key='rewind ' + tag)
+        wantperf = [(h, f) for k, h, f in perf]
+        ok = st == 'ok' and [(h, f) for h, f, old, pos in perfcalls] == wantperf and all(pos == 0 and old is False for h, f, old, pos in perfcalls) \
+            and all(getattr(obj.attrs['_Log__simulations'][i_], 'performance', None) == ('PERF', h, f) for i_, (k, h, f) in enumerate(perf))
+        ctx.ob('READ', loc, '%s: each timing breakdown is read over its own lines (the line after its banner … the line before "Nlocal"), from a rewound stream, and the tables are attached in order to the runs just read' % tag, bool(ok), str(perfcalls), node=read, key='perf ' + tag)
+        if kw.get('banner', True) is not None:
+            ok = obj.attrs['_Log__lammps_version'] == '29 Oct 2020 - Update 2' and obj.attrs['_Log__lammps_date'] == ('DATE', 2020, 10, 29)
+            ctx.ob('READ', loc, '%s: version string = text inside the banner\'s parentheses, date = its day, month and year' % tag, bool(ok), str((obj.attrs['_Log__lammps_version'], obj.attrs['_Log__lammps_date'])), node=read, key='version ' + tag)
+        else:
+            ctx.ob('READ', loc, '%s: version and date stay unset' % tag, obj.attrs['_Log__lammps_version'] is None and obj.attrs['_Log__lammps_date'] is None, node=read, key='version ' + tag)
+    ctx.floor('READ', n, 4)
+    # sequences of read() calls
+    l1, w1, p1 = _synth([A, B], extra_banner=True)
+    l2, w2, p2 = _synth([C], banner='LAMMPS (3 Mar 2020)')
+    obj = new_log()
+    s1 = do_read(obj, l1)
+    first_version = obj.attrs['_Log__lammps_version']
+    s2 = do_read(obj, l2, True)
+    ok = s1[0] == 'ok' and s2[0] == 'ok' and tables(obj) == [(c, r) for c, r in w1 + w2] and getattr(obj.attrs['_Log__simulations'][2], 'performance', None) is not None \
+        and getattr(obj.attrs['_Log__simulations'][0], 'performance', None) == ('PERF', p1[0][1], p1[0][2])
+    ctx.ob('APPEND', loc, 'reading a further log (append=True) adds its runs after the existing ones; its timing tables go to its own runs', bool(ok), str(tables(obj))[:200], node=read, key='append')
+    ctx.ob('APPEND', loc, 'the version is taken from the first banner met and kept when further banners or logs follow', first_version == '29 Oct 2020 - Update 2' and obj.attrs['_Log__lammps_version'] == '29 Oct 2020 - Update 2',
+           str((first_version, obj.attrs['_Log__lammps_version'])), node=read, key='first banner')
+    obj2 = new_log()
+    do_read(obj2, l1)
+    do_read(obj2, l2)          # append defaults to True
+    ctx.ob('APPEND', loc, 'append is the default', tables(obj2) == [(c, r) for c, r in w1 + w2], node=read, key='append default')
+    s3 = do_read(obj, l2, False)
+    ok = s3[0] == 'ok' and tables(obj) == [(c, r) for c, r in w2] and obj.attrs['_Log__lammps_version'] == '3 Mar 2020' and obj.attrs['_Log__lammps_date'] == ('DATE', 2020, 3, 3)
+    ctx.ob('APPEND', loc, 'append=False forgets the earlier runs, version and date before reading', bool(ok), str((tables(obj), obj.attrs['_Log__lammps_version']))[:200], node=read, key='overwrite')
+    # months
     rv = ctx.fn(LOG, 'Log.__read_lammps_version')
-    locv = LOG + '::Log.__read_lammps_version'
-    month = None
-    for s in ast.walk(rv):
-        if isinstance(s, ast.Assign) and isinstance(s.value, ast.Dict):
-            try:
-                month = {k.value: v.value for k, v in zip(s.value.keys, s.value.values)}
-            except AttributeError:
-                pass
-    want = dict(zip(['Jan', 'Feb', 'Mar', 'Apr', 'May', 'Jun', 'Jul', 'Aug', 'Sep', 'Oct', 'Nov', 'Dec'], range(1, 13)))
-    ctx.ob('TRIGGERS', locv, 'month table maps the twelve abbreviations to 1..12', month == want, str(month), node=rv)
-    sl = [s for s in ast.walk(rv) if isinstance(s, ast.Subscript) and isinstance(s.slice, ast.Slice) and norm(s.value) == 'line.strip()']
-    ok = len(sl) == 1 and isinstance(sl[0].slice.lower, ast.Constant) and sl[0].slice.lower.value == len('LAMMPS (') and norm(sl[0].slice.upper) == '-1'
-    ctx.ob('TRIGGERS', locv, 'version string is the text between "LAMMPS (" and the closing parenthesis', ok, norm(sl[0]) if sl else '', node=rv)
-    dt = [c for c in calls_in(rv) if norm(c.func) == 'datetime.date']
-    ok = len(dt) == 1 and [norm(a).replace(' ', '') for a in dt[0].args] == ['int(d[2])', 'month[d[1]]', 'int(d[0])']
-    ctx.ob('TRIGGERS', locv, 'date is (year=third token, month=second token via the table, day=first token)', ok, norm(dt[0]) if dt else '', node=rv)
+    bad = []
+    for k, mname in enumerate(['Jan', 'Feb', 'Mar', 'Apr', 'May', 'Jun', 'Jul', 'Aug', 'Sep', 'Oct', 'Nov', 'Dec']):
+        o = new_log()
+        st = do_read(o, ['LAMMPS (7 %s 2019)\n' % mname, 'units real\n'])
+        if st[0] != 'ok' or o.attrs['_Log__lammps_date'] != ('DATE', 2019, k + 1, 7) or o.attrs['_Log__lammps_version'] != '7 %s 2019' % mname:
+            bad.append((mname, o.attrs['_Log__lammps_date']))
+    ctx.ob('TRIGGERS', LOG + '::Log.__read_lammps_version', 'the twelve month abbreviations give months 1..12', not bad, str(bad), node=rv, key='months')
+    o = new_log()
+    do_read(o, ['  LAMMPS (7 Aug 2019)\n', 'Reading LAMMPS (data) file\n'])
+    ctx.ob('TRIGGERS', loc, 'only a line that starts with "LAMMPS (" is a version banner', o.attrs['_Log__lammps_version'] is None, str(o.attrs['_Log__lammps_version']), node=read, key='banner start')
 
 
-def append_sem(ctx):
-    read = ctx.fn(LOG, 'Log.read')
-    loc = LOG + '::Log.read'
-    resets = [s for s in read.body if isinstance(s, ast.If) and 'append' in norm(s.test)]
-    ctx.need(resets, 'Log.read: the append=False reset block was not found')
-    r = resets[0]
-    t = norm(r.test).replace(' ', '')
-    stored = {norm(x.targets[0]): norm(x.value) for x in r.body if isinstance(x, ast.Assign)}
-    ok = t in ('appendisFalse', 'notappend', 'append==False') and stored.get('self.__simulations') == '[]' and stored.get('self.__lammps_version') == 'None' and stored.get('self.__lammps_date') == 'None'
-    ctx.ob('APPEND', loc, 'append=False clears simulations, version and date; append=True keeps them', ok, str(stored), node=r)
-    js = assigns_to(read, 'j')
-    rt = [c for c in calls_in(read) if norm(c.func).endswith('__read_thermo')]
-    ok = len(js) == 1 and norm(js[0].value) == 'len(self.simulations)' and rt and js[0].lineno < rt[0].lineno
-    ctx.ob('APPEND', loc, 'the offset of existing simulations is taken before new runs are appended', bool(ok), node=js[0] if js else read)
-    pa = [s for s in ast.walk(read) if isinstance(s, ast.Assign) and norm(s.targets[0]).endswith('.performance')]
-    ok = len(pa) == 1 and norm(pa[0].targets[0]).replace(' ', '') in ('self.simulations[i+j].performance', 'self.simulations[j+i].performance')
-    ctx.ob('APPEND', loc, 'timing tables are attached to the newly read simulations (index offset by the existing count)', ok, norm(pa[0].targets[0]) if pa else '', node=pa[0] if pa else read)
-    init = ctx.fn(LOG, 'Log.__init__')
-    ctx.ob('APPEND', LOG + '::Log.__init__', 'a new Log starts empty and reads the given content', any(norm(c.func) == 'self.read' for c in calls_in(init)), node=init)
+class _Frame(PyStub):
+    """numeric table model for flatten(): named columns of exact values, row selection by mask, concatenation"""
+    _isa = ('DataFrame',)
+
+    def __init__(self, cols, order=None):
+        import numpy as np
+        object.__setattr__(self, 'cols', {k: np.array(list(v), dtype=object) for k, v in cols.items()})
+
+    def __len__(self):
+        return len(next(iter(self.cols.values()))) if self.cols else 0
+
+    def __contains__(self, k):
+        return k in self.cols
+
+    def keys(self):
+        return list(self.cols)
+
+    def __getattr__(self, k):
+        c = object.__getattribute__(self, 'cols')
+        if k in c:
+            return c[k]
+        raise AttributeError(k)
+
+    def __getitem__(self, k):
+        import numpy as np
+        if isinstance(k, str):
+            if k not in self.cols:
+                from ..symx import ModelError
+                raise ModelError('KeyError', k)
+            return self.cols[k]
+        m = np.array([bool(v) for v in np.ravel(k)])
+        return _Frame({c: v[m] for c, v in self.cols.items()})
+
+    def __setitem__(self, k, v):
+        import numpy as np
+        self.cols[k] = np.array(list(v), dtype=object)
 
 
-def flatten(ctx):
+def flatten_model(ctx):
+    """Log.flatten interpreted on model tables (exact Step values, tagged data values)"""
+    import numpy as np
+    from ..symx import SymObj, PyStub, Opaque, WouldRaise, module_aliases
+    from ..core import AnalysisError
+    cls = ctx.fn(LOG, 'Log')
     fn = ctx.fn(LOG, 'Log.flatten')
     loc = LOG + '::Log.flatten'
-    arms = string_dispatch([s for s in ast.walk(fn) if isinstance(s, ast.If)], 'style')
-    ctx.need(all(k in arms for k in ('first', 'last', 'all')), 'Log.flatten: style dispatch arms first/last/all not found')
-    ctx.floor('FLATTEN', len([k for k in arms if k != '__else__']), 3)
+    I = sp.Integer
 
-    def concat_of(body):
-        for s in body:
-            if isinstance(s, ast.Assign) and isinstance(s.value, ast.Call) and norm(s.value.func) == 'pd.concat' and isinstance(s.value.args[0], ast.List):
-                return s, s.value.args[0].elts, s.value
-        return None, None, None
-    merged = None
-    # first
-    s, parts, call = concat_of(arms['first'])
-    ok = False
-    det = ''
-    if parts and len(parts) == 2:
-        merged = norm(s.targets[0])
-        p0, p1 = parts
-        det = norm(call)
-        if norm(p0) == merged and isinstance(p1, ast.Subscript):
-            th = norm(p1.value)
-            cc = cmp_canon(p1.slice)
-            ok = cc == ('%s.Step' % th, '>', '%s.Step.max()' % merged) or cc == ("%s['Step']" % th, '>', "%s['Step'].max()" % merged)
-    ctx.ob('FLATTEN', loc, "'first': earlier rows kept; a later run contributes only rows whose Step exceeds the running maximum", ok, det, node=s or fn)
-    s, parts, call = concat_of(arms['last'])
-    ok = False
-    det = ''
-    if parts and len(parts) == 2:
-        m = norm(s.targets[0])
-        p0, p1 = parts
-        det = norm(call)
-        if isinstance(p0, ast.Subscript) and norm(p0.value) == m:
-            th = norm(p1)
-            cc = cmp_canon(p0.slice)
-            ok = cc == ('%s.Step.min()' % th, '>', '%s.Step' % m) or cc == ("%s['Step'].min()" % th, '>', "%s['Step']" % m)
-    ctx.ob('FLATTEN', loc, "'last': a later run replaces earlier rows from its first Step on (earlier rows kept only below the new minimum)", ok, det, node=s or fn)
-    s, parts, call = concat_of(arms['all'])
-    ok = bool(parts) and len(parts) == 2 and norm(parts[0]) == norm(s.targets[0]) and isinstance(parts[1], ast.Name)
-    ctx.ob('FLATTEN', loc, "'all': every row of every run is kept, in order", ok, norm(call) if call else '', node=s or fn)
-    for k in ('first', 'last', 'all'):
-        s, parts, call = concat_of(arms[k])
-        ig = kwarg(call, 'ignore_index') if call else None
-        ctx.ob('FLATTEN', loc, "'%s': merged rows are renumbered (ignore_index=True)" % k, isinstance(ig, ast.Constant) and ig.value is True, node=s or fn, key='ignore_index %s' % k)
-    ctx.ob('FLATTEN', loc, 'unknown style is refused', '__else__' in arms and any(isinstance(x, ast.Raise) for x in arms['__else__']), node=fn)
-    sims = assigns_to(fn, 'simulations')
-    ctx.ob('FLATTEN', loc, 'runs are taken in order from simulations[firstindex:lastindex]', len(sims) == 1 and norm(sims[0].value) == 'self.simulations[firstindex:lastindex]', node=sims[0] if sims else fn)
-    md = assigns_to(fn, 'merged_df')
-    ctx.ob('FLATTEN', loc, 'merging starts from the first run and walks the remaining ones in order',
-           md and norm(md[0].value) == 'simulations[0].thermo' and any(isinstance(x, ast.For) and norm(x.iter) == 'simulations[1:]' for x in ast.walk(fn)), node=md[0] if md else fn)
-    asserts = [a for a in ast.walk(fn) if isinstance(a, ast.Assert) and "'Step' in" in norm(a.test)]
-    ctx.ob('FLATTEN', loc, 'Step column presence is asserted before merging', len(asserts) == 1 and asserts[0].lineno < (md[0].lineno if md else 0), node=fn)
+    def run_of(tag, steps, extra=None):
+        cols = {'Step': [I(s_) for s_ in steps], 'Temp': [sp.Symbol('%s_T%d' % (tag, s_)) for s_ in steps]}
+        if extra:
+            cols[extra] = [sp.Symbol('%s_%s%d' % (tag, extra, s_)) for s_ in steps]
+        return cols
+    RUNS = [run_of('A', [0, 10, 20, 30]), run_of('B', [20, 30, 40], 'Press'), None, run_of('C', [40, 50]), run_of('D', [100, 110], 'Press')]
+
+    class Sim(PyStub):
+        def __init__(self, thermo=None, performance=None):
+            self.thermo = thermo
+    concat_calls = []
+
+    def concat(frames, ignore_index=False, **kw):
+        concat_calls.append(bool(ignore_index))
+        names = []
+        for f in frames:
+            for c in f.keys():
+                if c not in names:
+                    names.append(c)
+        out = {c: [] for c in names}
+        for f in frames:
+            for c in names:
+                out[c].extend(list(f.cols[c]) if c in f.cols else [None] * len(f))
+        return _Frame(out)
+
+    class PD(PyStub):
+        pass
+    pd_ = PD()
+    pd_.concat = concat
+    pd_.DataFrame = 'DataFrame'
+
+    def flat(style, runs, first=None, last=None, give_style=True):
+        sims = [Sim(thermo=(None if r is None else _Frame(r))) for r in runs]
+        obj = SymObj(cls, {'_Log__simulations': sims}, 'self')
+        ev = SymEval(module_aliases(ctx.mod(LOG)))
+        ev.globals = {'pd': pd_, 'Simulation': Sim}
+        kw = {}
+        if give_style:
+            kw['style'] = style
+        if first is not None:
+            kw['firstindex'] = first
+        if last is not None:
+            kw['lastindex'] = last
+        try:
+            live = [q for q in ev.run_fn(fn, [obj], kw) if q.done == 'return']
+        except WouldRaise:
+            return None
+        except Opaque as e:
+            raise AnalysisError('Log.flatten(%s): %s' % (style, e))
+        if len(live) != 1 or not isinstance(live[0].ret, Sim) or not isinstance(live[0].ret.thermo, _Frame):
+            return None
+        t = live[0].ret.thermo
+        return [tuple((c, t.cols[c][i]) for c in sorted(t.cols) if t.cols[c][i] is not None) for i in range(len(t))]
+
+    def brute(style, runs):
+        rows = []
+        for r in runs:
+            if r is None:
+                continue
+            new = [tuple((c, r[c][i]) for c in sorted(r)) for i in range(len(r['Step']))]
+            step = lambda row: dict(row)['Step']
+            if not rows or style == 'all':
+                rows = rows + new
+            elif style == 'first':
+                mx = max(step(x) for x in rows)
+                rows = rows + [x for x in new if step(x) > mx]
+            else:
+                mn = min(step(x) for x in new)
+                rows = [x for x in rows if step(x) < mn] + new
+        return rows
+    for style, desc in (('first', "'first': rows of earlier runs are kept; a later run contributes only the rows whose Step exceeds every Step already present"),
+                        ('last', "'last': a later run replaces the earlier rows from its first Step on"), ('all', "'all': every row of every run, in order")):
+        got = flat(style, RUNS)
+        want = brute(style, RUNS)
+        ok = got == want and (style == 'all' or len({dict(r)['Step'] for r in got}) == len(got))
+        ctx.ob('FLATTEN', loc, '%s (five records: overlapping, touching and disjoint step ranges, one record without a table, differing column sets); each row keeps the values of the run it came from' % desc, bool(ok),
+               'got %s' % str(got)[:240], node=fn, key='merge ' + style)
+        got2 = flat(style, RUNS, 1, 4)
+        ctx.ob('FLATTEN', loc, "'%s' over simulations[1:4] only" % style, got2 == brute(style, RUNS[1:4]), str(got2)[:200], node=fn, key='slice ' + style)
+    ctx.ob('FLATTEN', loc, "the default style is 'last'", flat(None, RUNS, give_style=False) == brute('last', RUNS), node=fn, key='default style')
+    ctx.ob('FLATTEN', loc, 'merged rows are renumbered (ignore_index=True on every concatenation)', bool(concat_calls) and all(concat_calls), node=fn, key='ignore_index')
+    ctx.ob('FLATTEN', loc, 'an unknown style is refused', flat('median', RUNS) is None, node=fn, key='unknown style')
+    nostep = [RUNS[0], {'Time': [I(1), I(2)], 'Temp': [sp.Symbol('x1'), sp.Symbol('x2')]}]
+    ctx.ob('FLATTEN', loc, 'a thermo table without a Step column is refused', flat('last', nostep) is None, node=fn, key='no step')
+    single = flat('first', [RUNS[0]])
+    ctx.ob('FLATTEN', loc, 'a single run is returned as it is', single == brute('first', [RUNS[0]]), node=fn, key='single')
 
 
 RUN = 'atomman/lammps/run.py'
@@ -373,7 +479,7 @@ def restart(ctx):
 
 
 def run(ctx):
-    ctx.explanation = ('C19: structural obligations on the log reader: library-API compatibility of every pandas call against the installed pandas; '
-                       'integer-affine accounting of header/footer line numbers over non-blank lines; trigger strings and banner slices; append semantics; '
-                       'the three flatten merge rules. Not decided: that pandas parses each printed number to the same value.')
-    ctx.run_rules([api, line_account, triggers, append_sem, flatten, restart])
+    ctx.explanation = ('C19: library-API compatibility of every pandas call against the installed pandas; Log.read interpreted on synthesised logs (token lines, a file model with a read '
+                       'position, read_csv counting non-blank lines as pandas does): records per run, printed names and rows, truncated final block, rewinds, timing tables, version/date, append '
+                       'sequences; Log.flatten interpreted on model tables; lammps.run restart bookkeeping on a model file system. Not decided: that pandas parses each printed number to the same value.')
+    ctx.run_rules([api, read_model, flatten_model, restart])
